@@ -277,7 +277,7 @@ const rule = "MannWhitneyUTest at the default limits vs pair-count U and an exac
 	"(composition of N into >=2 parts), every allocation of each tie group to the samples with both non-empty, all " +
 	"three alternatives, values = rank indices in scrambled order. Random part: rapid, sizes up to 50+50 untied and " +
 	"25+25 tied, five tie styles, five value styles, shuffled. Non-trivial: n1,n2>=2 and 0<U<n1*n2; distinct = " +
-	"different canonical JSON of (x1,x2,alt)."
+	"different canonical JSON of (x1,x2,alt). Later additions: separated samples, limits other than the defaults, sibling tie vectors evaluated first, one tie group made of zeros of both signs."
 
 // TestExhaustive enumerates every tie vector and every split for small N.
 func TestExhaustive(t *testing.T) {
